@@ -13,6 +13,9 @@ M: transcription (AFTER the `fix:` commits listed for C18 in KNOWN_FINDINGS.txt)
      src/coap_net.c     the ownership skeleton of coap_send -> coap_send_lkd -> coap_send_internal -> coap_send_pdu ->
                         { written & freed | coap_wait_ack: queue node owns it | coap_session_delay_pdu: delay-queue node
                         owns it | error & freed }   (UDP client session, ESTABLISHED, block mode off, no OSCORE)
+     src/coap_pdu.c / coap_cache.c / coap_resource.c
+                        coap_pdu_duplicate_lkd, coap_cache_derive_key_w_ignore, coap_add_observer, coap_delete_observer with
+                        the server session's reference count (section "Observe registrations" below)
 
 The allocator is an ORACLE: `List Bool`, one entry per allocation REQUEST in program order (`false` = the request returns
 NULL); an exhausted oracle answers `true` (memory available).  Every successful allocation gets the next serial number;
@@ -245,6 +248,155 @@ def sendInternal (con : Bool) (p : OPdu) (s : Sess) (h : Heap) : SendRes × Sess
 def send (con : Bool) (p : OPdu) (s : Sess) (h : Heap) : SendRes × Sess × Heap :=
   if p.tokLen > s.maxTok then (.error, s, pduDelete p h) else sendInternal con p s h
 
+/-! ## Observe registrations: the subscriptions of ONE observable resource held for ONE server session
+
+src/coap_pdu.c       coap_pdu_duplicate_lkd (drop_options == NULL)
+src/coap_cache.c     coap_cache_derive_key_w_ignore (one request: the key object; the digest context is GnuTLS's)
+src/coap_resource.c  coap_add_observer, coap_delete_observer -> coap_delete_observer_internal, with `session->ref`
+                     (coap_session_reference_lkd / coap_session_release_lkd on a server session: ++ / -- if > 0)
+
+transcribed AFTER the fixes `coap_add_observer fails when the payload cannot be copied` and `coap_pdu_duplicate fails when
+the token cannot be stored`.  Domain: request code is not FETCH (the payload is not part of the key), no `observe_added` /
+`observe_deleted` callbacks, COAP_RESOURCE_MAX_SUBSCRIBER = 0.  SHA-256 is abstracted to its input: two keys are equal iff
+the (number, value) lists of the cache-key options are (the session pointer is the same for all). -/
+
+/-- `pdu->e_token_length` -/
+def etl (p : OPdu) : Nat :=
+  match M.tokBias p.tokLen with
+  | some b => p.tokLen + b
+  | none => p.tokLen
+
+/-- the options of a PDU as `coap_pdu_duplicate_lkd` copies them: `token[e_token_length .. data - 1)` or up to `used_size` -/
+def optRegion (p : OPdu) : Bytes :=
+  let n := p.buf.length - etl p - (match p.data with | some d => p.buf.length - d + 1 | none => 0)
+  (p.buf.drop (etl p)).take n
+
+/-- `pdu->data`, `used_size - (data - token)` bytes -/
+def payload (p : OPdu) : Option Bytes :=
+  match p.data with
+  | some d => some (p.buf.drop d)
+  | none => none
+
+/-- `coap_pdu_duplicate_lkd(old, session, tok.length, tok, NULL)`; `sessMax` = `coap_session_max_pdu_size_lkd(session)` -/
+def pduDuplicate (old : OPdu) (sessMax : Nat) (tok : Bytes) (h : Heap) : Option OPdu × Heap :=
+  match pduInit (max old.maxSize sessMax) h with
+  | (none, h1) => (none, h1)
+  | (some p, h1) =>
+    let t := addToken p tok h1
+    if t.1 = 0 then (none, pduDelete t.2.1 t.2.2) else
+    let opts := optRegion old
+    let r := resize t.2.1 (opts.length + etl t.2.1) t.2.2
+    if r.1 = 0 then (none, pduDelete r.2.1 r.2.2) else
+    (some { r.2.1 with buf := r.2.1.buf ++ opts, maxOpt := old.maxOpt }, r.2.2)
+
+/-- `is_cache_key(number, cache_ignore_options = {ETag, OSCORE})`: not NoCacheKey, not Observe, not ignored -/
+def isCacheKey (num : Nat) : Bool := !(num % 32 / 2 == 14) && num != 6 && num != 4 && num != 9
+
+abbrev KeyMat := List (Nat × Bytes)
+
+/-- what `coap_cache_derive_key_w_ignore` digests; `none` = `coap_option_iterator_init` fails (nothing after the token) -/
+def keyOf (p : OPdu) : Option KeyMat :=
+  if p.buf.length ≤ etl p then none else
+  some ((M.optIter (p.buf.length + 1) (p.buf.drop (etl p)) (etl p) 0).filterMap fun it =>
+    if isCacheKey it.num then some (it.num, (p.buf.drop (it.ofs + it.p.valOfs)).take it.p.length) else none)
+
+/-- `coap_cache_derive_key_w_ignore(session, pdu, COAP_CACHE_IS_SESSION_BASED, …)`: serial of the key object + its value -/
+def deriveKey (p : OPdu) (h : Heap) : Option (Nat × KeyMat) × Heap :=
+  match keyOf p with
+  | none => (none, h)
+  | some km =>
+    match h.alloc with
+    | (none, h1) => (none, h1)
+    | (some k, h1) => (some (k, km), h1)
+
+/-- `coap_subscription_t` -/
+structure Sub where
+  id : Nat               -- ledger serial of the subscription
+  pdu : OPdu             -- s->pdu
+  keyId : Nat            -- ledger serial of s->cache_key
+  key : KeyMat
+  tok : Bytes            -- s->pdu->actual_token
+  deriving Repr, DecidableEq
+
+/-- the session's reference count and the resource's subscriber list (head first) -/
+structure Obs where
+  ref : Nat := 0
+  subs : List Sub := []
+  deriving Repr, DecidableEq
+
+/-- `coap_delete_observer_internal(resource, session, s)` -/
+def deleteObserverInternal (s : Sub) (o : Obs) (h : Heap) : Obs × Heap :=
+  if o.subs.isEmpty then (o, h) else
+  ({ ref := o.ref - 1, subs := o.subs.eraseP (fun x => x.id == s.id) },
+   ((pduDelete s.pdu h).free s.keyId).free s.id)
+
+/-- `coap_delete_observer(resource, session, token)` -/
+def deleteObserver (tok : Bytes) (o : Obs) (h : Heap) : Nat × Obs × Heap :=
+  match o.subs.find? (fun x => x.tok == tok) with
+  | none => (0, o, h)
+  | some s => let r := deleteObserverInternal s o h; (1, r.1, r.2)
+
+/-- first part of `coap_add_observer` when no subscription has the token: derive the cache key (one request) and delete the
+subscription of the same session for the same request, if there is one (`coap_delete_observer` with ITS token).  Returns
+the key (serial, value) if it could be derived. -/
+def replaceStep (req : OPdu) (o : Obs) (h : Heap) : Option (Nat × KeyMat) × Obs × Heap :=
+  let k1 := deriveKey req h
+  match k1.1 with
+  | some (k, km) =>
+    match o.subs.find? (fun x => x.key == km) with
+    | some s => let r := deleteObserver s.tok o k1.2; (some (k, km), r.2.1, r.2.2)
+    | none => (some (k, km), o, k1.2)
+  | none => (none, o, k1.2)
+
+/-- `coap_delete_cache_key(cache_key)` of the key derived by `replaceStep` (NULL: nothing) -/
+def freeKey (k1 : Option (Nat × KeyMat)) (h : Heap) : Heap :=
+  match k1 with
+  | some (k, _) => h.free k
+  | none => h
+
+/-- `if (coap_get_data(request, &len, &data)) { s->pdu->max_size = 0; if (!coap_add_data(s->pdu, len, data)) fail }`:
+a FETCH body is kept with the copy (no size limit); after the fix a failure is an error -/
+def copyPayload (req p : OPdu) (h : Heap) : Nat × OPdu × Heap :=
+  match payload req with
+  | some body => addData { p with maxSize := 0 } body h
+  | none => (1, p, h)
+
+/-- `if (cache_key == NULL) cache_key = coap_cache_derive_key_w_ignore(…)`: derived now if it could not be derived before -/
+def lateKey (req : OPdu) (k1 : Option (Nat × KeyMat)) (h : Heap) : Option (Nat × KeyMat) × Heap :=
+  match k1 with
+  | some k => (some k, h)
+  | none => deriveKey req h
+
+/-- `coap_add_observer` after the subscription `sid` and the copy `p` of the request exist -/
+def finishSub (req : OPdu) (tok : Bytes) (k1 : Option (Nat × KeyMat)) (o : Obs) (sid : Nat) (p : OPdu) (h : Heap) :
+    Option Nat × Obs × Heap :=
+  let a := copyPayload req p h
+  if a.1 = 0 then (none, o, (freeKey k1 (pduDelete a.2.1 a.2.2)).free sid) else
+  let k2 := lateKey req k1 a.2.2
+  match k2.1 with
+  | none => (none, o, (pduDelete a.2.1 k2.2).free sid)
+  | some (kid, km) =>
+    -- s->session = coap_session_reference_lkd(session): AFTER the last step that can fail; LL_PREPEND
+    (some sid, { ref := o.ref + 1, subs := ⟨sid, a.2.1, kid, km, tok⟩ :: o.subs }, k2.2)
+
+/-- second part of `coap_add_observer`: "Create a new subscription" …; `k1` = the key derived before, if any -/
+def createSub (req : OPdu) (sessMax : Nat) (tok : Bytes) (k1 : Option (Nat × KeyMat)) (o : Obs) (h : Heap) :
+    Option Nat × Obs × Heap :=
+  match h.alloc with
+  | (none, h2) => (none, o, freeKey k1 h2)
+  | (some sid, h2) =>
+    match pduDuplicate req sessMax tok h2 with
+    | (none, h3) => (none, o, (freeKey k1 h3).free sid)
+    | (some p, h3) => finishSub req tok k1 o sid p h3
+
+/-- `coap_add_observer(resource, session, token, request)`: serial of the subscription returned, `none` = NULL -/
+def addObserver (req : OPdu) (sessMax : Nat) (tok : Bytes) (o : Obs) (h : Heap) : Option Nat × Obs × Heap :=
+  match o.subs.find? (fun x => x.tok == tok) with
+  | some s => (some s.id, o, h)
+  | none =>
+    let r := replaceStep req o h
+    createSub req sessMax tok r.1 r.2.1 r.2.2
+
 /-! ## scripts (the `ahelp` line protocol of harness/allocfail.c) -/
 
 inductive HOp where
@@ -262,6 +414,8 @@ inductive HOp where
   | strFree                        -- F
   | send (con : Bool)              -- Vc Vn
   | write (ok : Bool)              -- W0 W1
+  | obsAdd (toklen : Nat)          -- A<len>   coap_add_observer(resource, server session, token, current PDU)
+  | obsDel (toklen : Nat)          -- B<len>   coap_delete_observer(resource, server session, token)
   deriving Repr, DecidableEq
 
 structure St where
@@ -270,7 +424,11 @@ structure St where
   ol : List Opt := []
   strs : List Nat := []
   sess : Sess := {}
+  obs : Obs := {}
   deriving Repr, DecidableEq
+
+/-- `coap_session_max_pdu_size_lkd` of a UDP session: COAP_DEFAULT_MTU - 4 -/
+def SESS_MAX_PDU : Nat := 1148
 
 /-- result of one script step as printed: a number, `-` (skipped: no PDU), a send outcome, or unmodelled -/
 inductive Out where
@@ -337,6 +495,15 @@ def St.step (st : St) : HOp → Out × St
     | none => (.skip, st)
     | some p => let (r, s1, h1) := send con p st.sess st.heap; (.sent r, { st with heap := h1, sess := s1, pdu := none })
   | .write ok => (.num 1, { st with sess := { st.sess with writeOk := ok } })
+  | .obsAdd toklen =>
+    match st.pdu with
+    | none => (.skip, st)
+    | some p =>
+      let r := addObserver p SESS_MAX_PDU (pattern toklen) st.obs st.heap
+      (.num (if r.1.isSome then 1 else 0), { st with heap := r.2.2, obs := r.2.1 })
+  | .obsDel toklen =>
+    let r := deleteObserver (pattern toklen) st.obs st.heap
+    (.num r.1, { st with heap := r.2.2, obs := r.2.1 })
 
 def St.run : St → List HOp → List Out × St
   | st, [] => ([], st)
@@ -348,7 +515,10 @@ def St.cleanup (st : St) : St :=
   let h := optlistDelete st.ol h
   let h := freeAll st.strs h
   let h := (st.sess.sendq ++ st.sess.delayq).foldl (fun h n => (pduDelete n.pdu h).free n.id) h
-  { st with heap := h, pdu := none, ol := [], strs := [], sess := { st.sess with sendq := [], delayq := [] } }
+  -- coap_free_resource: every subscription gives its reference back and is released
+  let h := st.obs.subs.foldl (fun h s => ((pduDelete s.pdu h).free s.keyId).free s.id) h
+  { st with heap := h, pdu := none, ol := [], strs := [], sess := { st.sess with sendq := [], delayq := [] },
+            obs := { ref := st.obs.ref - st.obs.subs.length, subs := [] } }
 
 /-- oracle that fails exactly the requests number `k1` and `k2` (1-based, 0 = none) among the first `n` -/
 def oracleFailing (k1 k2 n : Nat) : Oracle :=
